@@ -202,10 +202,13 @@ def check_case(case):
         wild = c01.wild_newton_step(case, None) if solver in ("ProxNewton", "GroupProxNewton") else False
         viol.append(Viol(dict(sig, kind="non-finite", what="coefficients", wild_newton_step=wild), f"{solver} on {case['flags']} returned non-finite coefficients"))
         return result(viol, True, classes)
-    if ran and n_iter >= 1 and not math.isfinite(out.stop):
-        viol.append(Viol(dict(sig, kind="non-finite", what="stop_crit"), f"{solver} on {case['flags']} returned stop_crit={out.stop!r} after {n_iter} iterations"))
-    if not np.all(np.isfinite(out.obj)):
-        viol.append(Viol(dict(sig, kind="non-finite", what="objective-history"), f"{solver} on {case['flags']} returned a non-finite objective history {out.obj.tolist()[:5]}"))
+    nf_stop = ran and n_iter >= 1 and not math.isfinite(out.stop)
+    nf_obj = not np.all(np.isfinite(out.obj))
+    wild = c01.wild_newton_step(case, None) if (nf_stop or nf_obj) and solver in ("ProxNewton", "GroupProxNewton") else False
+    if nf_stop:
+        viol.append(Viol(dict(sig, kind="non-finite", what="stop_crit", wild_newton_step=wild), f"{solver} on {case['flags']} returned stop_crit={out.stop!r} after {n_iter} iterations"))
+    if nf_obj:
+        viol.append(Viol(dict(sig, kind="non-finite", what="objective-history", wild_newton_step=wild), f"{solver} on {case['flags']} returned a non-finite objective history {out.obj.tolist()[:5]}"))
     # exact zero on all-zero columns (penalised, cold start)
     pen_spec = case["penalty"]
     for j in zero_cols:
